@@ -96,6 +96,17 @@ CLAIMED = {
             "comparable_metric is replayed on every (tr, inv_tr) pair with a recording metric.",
             "per-draw values are recomputed by the harness on a 1e-6 grid; the numeric value of a correlation is not "
             "modelled."),
+    "C06": ("DESIGN 4/C06",
+            "TLA+ spec KMediansL1 (Lloyd loop: Manhattan E step, median M step, empty-cluster relocation, best-of tracking, "
+            "the code's convergence test, final E step): TLC model checking incl. a negative run + step-by-step trace "
+            "validation of the real E/M trajectory from TLC-enumerated initial states and random data",
+            "TLC checks NearestLabel, InertiaIsSum, CentresInBox and FitSucceeds for every data set, k and tuple of initial "
+            "centres on a lattice; initial states enumerated by TLC are replayed with init=<array> while the module globals "
+            "_labels_inertia/_centers_dense are wrapped, and every E and M step of the code must be the specification's "
+            "next step (relocation bound to the logged centre); random larger data cover string init modes, float32, "
+            "predict/transform and the norm='L2' equality with scikit-learn's KMeans.",
+            "integer data (exact after doubling); norm='L2' is an equality the trace spec evaluates, not a model of "
+            "Euclidean k-means."),
 }
 
 PENDING_REASON = "check not built yet in this round (planned: see DESIGN.md section 4); not claimed until it runs"
